@@ -26,6 +26,13 @@ def base_frames(rng, n):
         c = C15.e2e_case(rng, alg, rng.choice([-1, 0, 1, 2, 3, 8, 14, rng.randrange(1, 60)]))
         c["seq"] = max(c["seq"], 2)
         c["last"] = rng.choice([0, c["seq"] - 1])
+        if i % 3 == 2 and c["data"] != "-":
+            # payloads ending in zero octets: a MAC that does not cover the APDU length cannot tell them from zero padding
+            d = bytearray(unhx(c["data"]))
+            d[-1:] = b"\x00"
+            if len(d) > 2:
+                d[-2:] = b"\x00\x00"
+            c["data"] = hx(bytes(d))
         yield c
 
 
@@ -45,6 +52,12 @@ def generate(rng, tier):
         # appended octets
         yield dict(b, kind="tamper", tamper=["extend", 1, 1])
         yield dict(b, kind="tamper", tamper=["extend", 4, 1])
+        # the secured APDU made shorter / longer in FRONT of the MAC (length octet adjusted): octets cut, zero / 0xff octets inserted
+        for k in (1, 2, 3):
+            yield dict(b, kind="tamper", tamper=["cutmid", k])
+            yield dict(b, kind="tamper", tamper=["insmid", k, 0])
+        yield dict(b, kind="tamper", tamper=["insmid", 1, 255])
+        yield dict(b, kind="tamper", tamper=["insmid", 16, 0])
 
 
 def tampered(c):
@@ -63,6 +76,15 @@ def tampered(c):
     elif t[0] == "extend":
         raw += bytes(t[1])
         raw[8] = len(raw) - 10
+    elif t[0] == "cutmid":
+        # octets 0..8 header, 9..10 TPCI/APCI, 11 SCF, 12..17 sequence number, then the secured APDU, then 4 MAC octets
+        k = min(t[1], max(0, len(raw) - 22))
+        if k:
+            del raw[len(raw) - 4 - k: len(raw) - 4]
+        raw[8] = (len(raw) - 10) & 0xFF
+    elif t[0] == "insmid":
+        raw[len(raw) - 4: len(raw) - 4] = bytes([t[2]]) * t[1]
+        raw[8] = (len(raw) - 10) & 0xFF
     return bytes(raw), key
 
 
@@ -113,6 +135,8 @@ def where(c, raw_len):
 
 def oracle(c, out):
     t = c["tamper"]
+    if t[0] == "cutmid" and tampered(c)[0] == bytes(C15.sender_frame(c)[0]):
+        t = ["none"]        # nothing to cut from an empty secured APDU: the frame is the genuine one
     delivered = out.startswith("telegram ")
     good = f"telegram {hx(C15.payload_of(c).to_knx())} 1 {c['src']}:{c['seq']} "
     if out.startswith("raised"):
